@@ -4,7 +4,7 @@ from props import gcjobs, seqcases, C02 as _C02, C03 as _C03
 LEVEL = "other"
 TECHNIQUE = "bounded inductive contract check (CBMC) on the real GC.c: one function per obligation set on an arbitrary robin-hood registry of enumerated capacity, callees that recurse or finalise cut by recording stubs"
 LEVEL_TEXT = "Ledger per ghost object (number of destruct and dealloc calls) through recording sinks on the real GC.c, Alloc.c and container code: GC_Rem_Ptr finalises and releases exactly the deleted object once and strikes it from a sweep's pending list; GC_Sweep finalises exactly the unmarked non-roots once each, in destruct-then-dealloc order; GC_Del leaves no managed non-root behind and releases the slot array once; del/del_raw/del_root (C19 harness) and container deletion release everything they own. Registry capacity 3 (thorough 5). del while the collector is stopped is a listed known finding; an owner's destructor deleting an owned object during a sweep is undecided (solver limit)."
-NOTE = 'destructor re-entrancy during a sweep undecided; teardown order in Thread.c not under contract; allocator contracts assumed'
+NOTE = 'destructor re-entrancy during a sweep decided modularly (the contract of GC_Rem_Ptr for a pending object + the sweep with del cut by that contract; the real GC_Rem nested in the real GC_Sweep does not finish); teardown order in Thread.c not under contract; allocator contracts assumed'
 EXPLANATION = LEVEL_TEXT
 TRUSTED = []
 
